@@ -320,3 +320,12 @@ class Verdict:
             log("  ", what)
         sys.stdout.flush()
         return 1 if self.violations else 0
+
+
+def drop_trace(path, name):
+    """remove a trace file after validation; with VERIF_KEEP_TRACES=1 keep a copy under work/keep/<name>.ndjson
+    (input of tools/selftest_binding.py)"""
+    if os.environ.get("VERIF_KEEP_TRACES"):
+        os.makedirs(os.path.join(WORK, "keep"), exist_ok=True)
+        shutil.copy(path, os.path.join(WORK, "keep", name + ".ndjson"))
+    os.remove(path)
